@@ -720,6 +720,8 @@ class Executor:
         it = s.iter
         if isinstance(it, ast.Call) and isinstance(it.func, ast.Name) and it.func.id == 'range':
             return self.for_range(s, st, k)
+        if self.theory and self.theory.for_enumerate(self, s, st, k):
+            return
         for st2, v in self.eval(it, st):
             if isinstance(v, Exc):
                 k.exc(st2, v)
@@ -1766,6 +1768,9 @@ class Executor:
                 r = self.fresh(self.smt_sort(c.ret), 'r')
                 ex['result'] = r
                 res = self.mk_ret(c.ret, r, st)
+                for mk_, mv_ in res.meta.items():
+                    if isinstance(mv_, str):
+                        ex['result.' + mk_] = mv_      # components of a structured result
             for en in c.ensures:
                 m = _FUNPOST.match(en) if getattr(self.theory, 'FUNCTIONAL_POST', False) else None
                 if m and (m.group(1) == 'result' or m.group(1) in c.modifies) and '{%s}' % m.group(1) not in m.group(2) \
